@@ -87,8 +87,8 @@ Definition geo_asn_us (ip : bytes) : option N := Some 64500%N.
 (* the same probe from an IPv6 peer to an IPv4 phantom and from an IPv4 peer to an IPv6 phantom *)
 Example v6_peer_same_as_v4 :
   forall wrap cap D tracked ts script,
-    handle geo_cc_us geo_asn_us wrap cap (RTcp ip6) ip4 D tracked ts script None =
-    handle geo_cc_us geo_asn_us wrap cap (RTcp ip4in6) ip6 D tracked ts script None.
+    handle geo_cc_us geo_asn_us wrap cap (RTcp ip6 []) ip4 D tracked ts script None =
+    handle geo_cc_us geo_asn_us wrap cap (RTcp ip4in6 []) ip6 D tracked ts script None.
 Proof.
   intros. apply (C03_peer_address_irrelevant geo_cc_us geo_asn_us wrap cap D tracked ts script None _ _ ip6 ip4in6); reflexivity.
 Qed.
@@ -97,7 +97,7 @@ Qed.
    IPv6 address None, and then the handler returns at once *)
 Example nil_ip_rejected :
   forall wrap cap D tracked ts script,
-    handle geo_cc_us geo_asn_us wrap cap (RTcp []) ip4 D tracked ts script None = [AReturn 0%N].
+    handle geo_cc_us geo_asn_us wrap cap (RTcp [] []) ip4 D tracked ts script None = [AReturn 0%N].
 Proof. reflexivity. Qed.
 
 Example pipe_rejected :
@@ -110,6 +110,41 @@ Proof. reflexivity. Qed.
 Definition geo_cc_v4only (ip : bytes) : option bytes := if is_v4 ip then Some [85; 83]%N else None.
 Example v4only_db_keeps_v6 :
   forall wrap cap D tracked ts script,
-    handle geo_cc_v4only geo_asn_us wrap cap (RTcp ip6) ip4 D tracked ts script None = run wrap cap D tracked ts script /\
-    conn_entry geo_cc_v4only geo_asn_us (RTcp ip6) ip4 = EAccept {| k_asn := 64500%N; k_cc := []; k_v4 := true |}.
+    handle geo_cc_v4only geo_asn_us wrap cap (RTcp ip6 []) ip4 D tracked ts script None = run wrap cap D tracked ts script /\
+    conn_entry geo_cc_v4only geo_asn_us (RTcp ip6 []) ip4 = EAccept {| k_asn := 64500%N; k_cc := []; k_v4 := true |}.
 Proof. intros. split; reflexivity. Qed.
+
+(* ------------------------------------------------------------------ second pass: zoned peers, reloads *)
+From CJ Require Import C03.ReloadModel.
+
+Definition ll6 : bytes := [254;128;0;0;0;0;0;0;0;0;0;0;0;0;0;1]%N.   (* fe80::1 *)
+Definition eth0 : bytes := [101;116;104;48]%N.
+Example zoned_peer_accepted :
+  forall wrap cap D tracked ts script,
+    handle geo_cc_us geo_asn_us wrap cap (RTcp ll6 eth0) ip4 D tracked ts script None = run wrap cap D tracked ts script /\
+    remote_ip_printed (RTcp ll6 eth0) = None /\ remote_ip_printed (RTcp ll6 []) = Some ll6.
+Proof. intros. repeat split. Qed.
+
+(* the C03h history: a station with a database, a reload with a corrupt country database, one connection *)
+Definition corrupt_cc : option dbconf := Some {| c_asn := FAbsent; c_cc := FCorrupt |}.
+Definition k_us : skey := {| k_asn := 64500%N; k_cc := [85;83]%N; k_v4 := true |}.
+Example reload_corrupt_code_survives :
+  match lrun false code_guards (station0 DEmpty) [LEv (GOpen 0 k_us false false); LReload corrupt_cc; LEv (GOpen 1 k_us false false)] with
+  | Ok st => st_geo st = Some DEmpty
+  | _ => False
+  end.
+Proof. vm_compute. reflexivity. Qed.
+Example reload_corrupt_seeded_shape_panics :
+  lrun true code_guards (station0 DEmpty) [LEv (GOpen 0 k_us false false); LReload corrupt_cc; LEv (GOpen 1 k_us false false)] = Panic.
+Proof. vm_compute. reflexivity. Qed.
+(* the seed's needs are necessary: a reload with unconfigured databases is harmless in the seeded shape too, and the
+   same corrupt file at start-up keeps the station from starting *)
+Example reload_absent_seeded_shape_survives :
+  match lrun true code_guards (station0 (DMax (Some 1%N) (Some 2%N))) [LReload (Some {| c_asn := FAbsent; c_cc := FAbsent |}); LEv (GOpen 1 k_us false false)] with
+  | Ok st => st_geo st = Some DEmpty
+  | _ => False
+  end.
+Proof. vm_compute. reflexivity. Qed.
+Example startup_corrupt_refused : at_startup corrupt_cc = None /\ at_startup None = Some (Some DEmpty) /\
+  at_startup (Some {| c_asn := FGood 1; c_cc := FAbsent |}) = Some (Some (DMax (Some 1%N) None)).
+Proof. repeat split. Qed.
